@@ -1,5 +1,5 @@
 (* C05 — property theorems only. *)
-From C05 Require Import Model Spec Proofs.
+From C05 Require Import Model Spec Corr Proofs ProofsRound ProofsBits ProofsAll.
 Open Scope Z_scope.
 
 (* (1) Inside the guard the code model returns the mathematically exact result in canonical form and
@@ -10,7 +10,7 @@ Open Scope Z_scope.
      s_out o args = Some (m_op o args).
    NOT COVERED by this theorem although inside in_domain (evaluated on every run only): round, and = . *)
 Theorem C05_exact_on_domain_partial : forall o args,
-  in_domain o args = true -> o <> ORound Round -> o <> OCmp CEq ->
+  in_domain o args = true -> o <> OCmp CEq ->
   s_out o args = Some (m_op o args).
 Proof. exact exact_on_domain. Qed.
 Print Assumptions C05_exact_on_domain_partial.
